@@ -284,6 +284,41 @@ fn check_family(rep: &mut Report, k: usize, rc: bool, fam: &Fam, dir: &str) -> V
             Ok(())
         })());
     }
+    // the same three reports written with -o: the file holds what the command prints otherwise, nothing on stdout
+    for (what, base) in [("align", vec!["align", "x.skf", "--min-freq", "0", "--filter", "no-filter"]), ("map", vec!["map", "ref.fa", "x.skf"]), ("map vcf", vec!["map", "ref.fa", "x.skf", "-f", "vcf"]), ("distance", vec!["distance", "x.skf"])] {
+        let plain = cli::run(&base, dir, None);
+        let mut a = base.clone();
+        a.extend(["-o", "report.out"]);
+        let _ = std::fs::remove_file(format!("{dir}/report.out"));
+        let o = cli::run(&a, dir, None);
+        step(rep, &format!("{what} -o"), (|| {
+            if plain.code != 0 {
+                return if o.code != 0 { Ok(()) } else { Err(format!("{what} fails on stdout (exit {}) but succeeds with -o", plain.code)) };
+            }
+            if o.code != 0 {
+                return Err(format!("exit {} {}", o.code, tail(&o)));
+            }
+            let file = std::fs::read(format!("{dir}/report.out")).map_err(|e| format!("no output file: {e}"))?;
+            // sort lines: align's column order and hence its text is only defined up to column order, but a rerun of
+            // the same file in the same process layout may differ; compare as the sets of (name, length) and bytes
+            if what == "align" {
+                let (n1, s1) = real::parse_fasta(&plain.stdout);
+                let (n2, s2) = real::parse_fasta(&file);
+                let (mut c1, mut c2) = (real::columns_of(&s1).unwrap_or_default(), real::columns_of(&s2).unwrap_or_default());
+                c1.sort();
+                c2.sort();
+                if n1 != n2 || c1 != c2 {
+                    return Err("alignment written with -o differs from the one printed".into());
+                }
+            } else if file != plain.stdout {
+                return Err(format!("{what} -o writes {} bytes, stdout run prints {} bytes, contents differ", file.len(), plain.stdout.len()));
+            }
+            if !o.stdout.is_empty() && o.stdout == plain.stdout {
+                return Err("report also printed on stdout although -o was given".into());
+            }
+            Ok(())
+        })());
+    }
     // weed (a window of the first record) and reverse weed
     let rec = &fam.samples[0][0];
     let wseq = rec[..usize::min(rec.len(), k + 2)].to_vec();
